@@ -806,6 +806,32 @@ SILENT = [
            "        if not self.connected or self.disconnecting:\n            return\n        halfClosed = self._writeDisconnected\n        self.stopReading()\n"
            "        if halfClosed:\n            self.stopWriting()\n            self.connectionLost(failure.Failure(main.CONNECTION_DONE))\n            return\n"
            "        self.startWriting()\n        self.disconnecting = 1\n"),
+    Silent("full-test-through-static-limit-helper", ABS, "        return len(self.dataBuffer) + self._tempDataLen > self.bufferSize",
+           "        return self._exceeds(len(self.dataBuffer) + self._tempDataLen, self.bufferSize)",
+           more=[(ABS, "    def _maybePauseProducer(self):\n", "    @staticmethod\n    def _exceeds(amount, limit):\n        return amount > limit\n\n    def _maybePauseProducer(self):\n")]),
+    Silent("chunk-selected-by-conditional-expression", ABS,
+           "        if self.offset:\n            l = self.writeSomeData(lazyByteSlice(self.dataBuffer, self.offset))\n        else:\n            l = self.writeSomeData(self.dataBuffer)\n",
+           "        chunk = self.dataBuffer if not self.offset else lazyByteSlice(self.dataBuffer, self.offset)\n        l = self.writeSomeData(chunk)\n"),
+    Silent("dowrite-tail-flattened-with-named-conditions", ABS,
+           "        if self.offset == len(self.dataBuffer) and not self._tempDataLen:\n            self.dataBuffer = b\"\"\n            self.offset = 0\n            # stop writing.\n            self.stopWriting()\n"
+           "            # If I've got a producer who is supposed to supply me with data,\n            if self.producer is not None and (\n                (not self.streamingProducer) or self.producerPaused\n            ):\n"
+           "                # tell them to supply some more.\n                self.producerPaused = False\n                self.producer.resumeProducing()\n            elif self.disconnecting:\n"
+           "                # But if I was previously asked to let the connection die, do\n                # so.\n                return self._postLoseConnection()\n            elif self._writeDisconnecting:\n"
+           "                # I was previously asked to half-close the connection.  We\n                # set _writeDisconnected before calling handler, in case the\n"
+           "                # handler calls loseConnection(), which will want to check for\n                # this attribute.\n"
+           "                self._writeDisconnected = True\n                result = self._closeWriteConnection()\n                return result\n        return None\n",
+           "        drained = self.offset == len(self.dataBuffer) and not self._tempDataLen\n        if not drained:\n            return None\n        self.dataBuffer = b\"\"\n        self.offset = 0\n        self.stopWriting()\n"
+           "        wantsMore = self.producer is not None and (not self.streamingProducer or self.producerPaused)\n        if wantsMore:\n            self.producerPaused = False\n            self.producer.resumeProducing()\n            return None\n"
+           "        if self.disconnecting:\n            return self._postLoseConnection()\n        if self._writeDisconnecting:\n            self._writeDisconnected = True\n            return self._closeWriteConnection()\n        return None\n"),
+    Silent("register-selects-action-through-tuple", ABS,
+           "        if self.disconnected:\n            producer.stopProducing()\n        else:\n            self.producer = producer\n            self.streamingProducer = streaming\n            if not streaming:\n                producer.resumeProducing()\n",
+           "        if self.disconnected:\n            producer.stopProducing()\n            return\n        self.producer, self.streamingProducer = producer, streaming\n        if streaming:\n            return\n        producer.resumeProducing()\n"),
+    Silent("connection-lost-producer-release-in-helper-shared", ABS,
+           "        if self.producer is not None:\n            self.producer.stopProducing()\n            self.producer = None\n        self.stopReading()\n        self.stopWriting()\n",
+           "        held = self._forgetProducer()\n        if held is not None:\n            held.stopProducing()\n        self.stopReading()\n        self.stopWriting()\n",
+           more=[(ABS, "        self.producer = None\n        if self.connected and self.disconnecting:\n            self.startWriting()\n",
+                  "        self._forgetProducer()\n        if self.connected and self.disconnecting:\n            self.startWriting()\n"),
+                 (ABS, "    def unregisterProducer(self):\n", "    def _forgetProducer(self):\n        held, self.producer = self.producer, None\n        return held\n\n    def unregisterProducer(self):\n")]),
     Silent("unregister-guard-nested", ABS, "        if self.connected and self.disconnecting:\n            self.startWriting()\n\n\n@implementer(interfaces.ILoggingContext)",
            "        if self.connected:\n            if self.disconnecting:\n                self.startWriting()\n\n\n@implementer(interfaces.ILoggingContext)"),
 ]
